@@ -4918,6 +4918,15 @@ int KSI_VerificationRule_UserProvidedPublicationCreationTimeVerification(KSI_Ver
 			KSI_pushError(ctx, res, NULL);
 			goto cleanup;
 		}
+		/* Aggregation time is optional, default to publication time. */
+		if (aggregationTime == NULL) {
+			res = KSI_CalendarHashChain_getPublicationTime(sig->calendarChain, &aggregationTime);
+			if (res != KSI_OK) {
+				VERIFICATION_RESULT_ERR(KSI_VER_RES_NA, KSI_VER_ERR_GEN_2, KSI_VERIFY_NONE);
+				KSI_pushError(ctx, res, NULL);
+				goto cleanup;
+			}
+		}
 	} else {
 		/* Take the first aggregation hash chain, as all of the chain should have the same value for "aggregation time". */
 		res = KSI_AggregationHashChainList_elementAt(sig->aggregationChainList, 0, &aggregationChain);
